@@ -111,6 +111,27 @@ def fam_b2(case, fl):
     return _except_name(case, fl) and any(fl["name"] in d for d in fl.get("ns", []))
 
 
+def fam_b3(case, fl):
+    """the name of an `except … as n` clause (unbound again when the handler ends) that a *function body* reads: the
+    read was resolved while n was still bound (before the try statement), so the later unbinding is not seen —
+    the same blind spot as `del n` after a function that reads n (documented as unsupported)"""
+    import ast as _ast
+    if not _except_name(case, fl) or any(fl["name"] in d for d in fl.get("ns", [])):
+        return False
+    try:
+        tree = _ast.parse(fl["src"])
+    except SyntaxError:
+        return False
+    n = fl["name"]
+    for f in _ast.walk(tree):
+        if isinstance(f, (_ast.FunctionDef, _ast.AsyncFunctionDef, _ast.Lambda)):
+            body = f.body if isinstance(f.body, list) else [f.body]
+            for b in body:
+                if any(isinstance(x, _ast.Name) and x.id == n and isinstance(x.ctx, _ast.Load) for x in _ast.walk(b)):
+                    return True
+    return False
+
+
 def fam_l(case, fl):
     """inside a function: n is a comprehension variable and is read by a nested comprehension / lambda inside that same
     `for` clause's iterable.  The deferred check aliases (does not clone) the enclosing comprehension scope, so the
@@ -250,7 +271,7 @@ def fam_code_imprecise(case, fl):
 
 FAMILIES = dict(classCompRead=fam_a, exceptNameAfter=fam_b, augUnbound=fam_c, classNameRemoved=fam_d,
                 unexecutedBinding=fam_e, targetInHeader=fam_f, annAssignTarget=fam_g, attrStoreUnbound=fam_i,
-                paramInAnnotation=fam_j, compVarInOwnIterable=fam_l, exceptNameInCallerNs=fam_b2, importSideEffect=fam_imp,
+                paramInAnnotation=fam_j, compVarInOwnIterable=fam_l, exceptNameInCallerNs=fam_b2, exceptNameReadInFunction=fam_b3, importSideEffect=fam_imp,
                 codeStoreExists=fam_code_bound, codeAttrStore=fam_code_attr, codeImprecise=fam_code_imprecise)
 
 
